@@ -43,6 +43,10 @@ def union_no_overlap(events1: List[Event], events2: List[Event]) -> List[Event]:
     """
     events1 = deepcopy(events1)
     events2 = deepcopy(events2)
+    # Among events with the same timestamp, handle a zero-length one before the
+    # longer one: once the longer one has been cut at the end of an e1, that e1 is
+    # behind us, and a zero-length e2 inside it would be kept although it is covered
+    events2.sort(key=lambda e: (e.timestamp, e.duration))
 
     # I looked a lot at aw_transform.union when I wrote this
     events_union = []
